@@ -30,9 +30,9 @@ func init() {
 				Blocks:   32,
 				Procs:    16,
 				Rule: "case = (key type and comparator: int natural, int reversed via NewFunc, string natural, string case-folding via NewFunc; universe size; history of Set/Delete/Clear through the map and through a copy of it). " +
-					"After EVERY mutation: Len, Get/GetOK (all keys of small universes, sampled otherwise), Keys, String (exact comparators), First->Next sweep to the end, Last->Prev sweep to the start, Seek(k) for every k in [min-2,max+2] (sampled for large universes) followed by Next-steps and Prev-steps, re-Seek of an already positioned iterator to each kind of target, Key/Value of invalid iterators; periodically the delete-while-iterating idiom with re-Seek after each Delete; histories drain below 1/8 of their peak to reach the delete-side rebuild. Sparse-observation histories: maps of 100..1000 keys, operations chosen with locality (neighbouring keys), only the results of Set/Delete/GetOK themselves checked and nothing read in between (state carried from call to call is not disturbed by the monitor), full comparison every 400 operations. Very large maps: 262 145..400 000 keys (3.6 M thorough, where a one-sided path at the fixed balance factor passes 32 levels) inserted in descending, ascending and shuffled order, read back completely, half deleted, read again. One shared map with no writer read by 8 goroutines at once (GetOK, Len, Seek with Next/Prev steps, First, Last). Zero Map: every documented read-only method. String-valued maps whose keys and values are awkward strings (blanks at either end, the separators String writes, format verbs, empty), String/Keys/iterators/GetOK compared after every operation. " +
+					"After EVERY mutation: Len, Get/GetOK (all keys of small universes, sampled otherwise), Keys, String (exact comparators), First->Next sweep to the end, Last->Prev sweep to the start, Seek(k) for every k in [min-2,max+2] (sampled for large universes) followed by Next-steps and Prev-steps, re-Seek of an already positioned iterator to each kind of target, re-Seek of iterators that ran off either end by Next/Prev or were sought past the end, Key/Value of invalid iterators; periodically the delete-while-iterating idiom with re-Seek after each Delete; histories drain below 1/8 of their peak to reach the delete-side rebuild. Sparse-observation histories: maps of 100..1000 keys, operations chosen with locality (neighbouring keys), only the results of Set/Delete/GetOK themselves checked and nothing read in between (state carried from call to call is not disturbed by the monitor), full comparison every 400 operations. Very large maps: 262 145..400 000 keys (3.6 M thorough, where a one-sided path at the fixed balance factor passes 32 levels) inserted in descending, ascending and shuffled order, read back completely, half deleted, read again. One shared map with no writer read by 8 goroutines at once (GetOK, Len, Seek with Next/Prev steps, First, Last). Zero Map: every documented read-only method. String-valued maps whose keys and values are awkward strings (blanks at either end, the separators String writes, format verbs, empty), String/Keys/iterators/GetOK compared after every operation. " +
 					"distinct = hash(comparator, universe, ops); non-trivial = the history performed seeks to all four target kinds (present, absent inside, below minimum, above maximum) and at least one Delete of a present key",
-				Required:     []string{"steps", "seek_present", "seek_absent_inside", "seek_below_min", "seek_above_max", "reseek_past_end", "iter_edit_idiom_runs", "deep_drains", "zero_map_checks", "copy_shares_checks", "prev_from_seek", "kept_iterator_reseeks", "float_key_maps", "sparse_observation_histories", "string_value_steps", "very_large_maps", "shared_reader_rounds"},
+				Required:     []string{"steps", "seek_present", "seek_absent_inside", "seek_below_min", "seek_above_max", "reseek_past_end", "iter_edit_idiom_runs", "deep_drains", "zero_map_checks", "copy_shares_checks", "prev_from_seek", "kept_iterator_reseeks", "reseeks_of_exhausted_iterators", "float_key_maps", "sparse_observation_histories", "string_value_steps", "very_large_maps", "shared_reader_rounds"},
 				Assumptions:  []string{"reference model: sorted slice of pairs; keys are compared with the map's own comparator (stored key spelling under a case-folding comparator is not constrained)"},
 				CoverPkgs:    []string{"github.com/creachadair/mds/omap", "github.com/creachadair/mds/stree"},
 				CoverAnchors: []string{"omap/omap.go", "stree/stree.go:InorderAfter", "stree/node.go:inorderAfter", "stree/stree.go:Cursor", "stree/stree.go:Replace", "stree/stree.go:Remove", "stree/cursor.go:Next", "stree/cursor.go:Prev", "stree/cursor.go:findNext", "stree/cursor.go:findPrev"},
@@ -299,6 +299,46 @@ func (x *c04run[K]) checkAll(focus K) {
 				}
 				if !x.iterAt(it, i, fmt.Sprintf("%s: re-Seek(%v) of a positioned iterator", who, k)) {
 					return
+				}
+			}
+			// Re-Seek of iterators that have run off either end (or were sought past
+			// the end): Seek is the documented way to use them again.
+			for wi, k := range targets {
+				var it *omap.Iter[K, int]
+				var how string
+				mode := (wi + x.steps) % 4
+				if pi, _ := x.find(x.gen(x.uni + 2)); mode == 2 && pi < n {
+					mode = 0 // the generator's largest key is in the map (or not the largest in this key order)
+				}
+				switch mode {
+				case 0:
+					it, how = m.Last(), "Last().Next()"
+					it.Next()
+				case 1:
+					it, how = m.First(), "First().Prev()"
+					it.Prev()
+				case 2:
+					it, how = m.Seek(x.gen(x.uni+2)), "Seek(past the largest key)"
+				default:
+					it, how = m.Seek(x.ref[n-1].k), "Seek(largest key).Next().Next()"
+					it.Next()
+					it.Next()
+				}
+				if it.IsValid() {
+					x.fail("%s: %s is valid at %v", who, how, it.Key())
+					return
+				}
+				it.Seek(k)
+				i, _ := x.find(k)
+				x.c.Add("reseeks_of_exhausted_iterators", 1)
+				if !x.iterAt(it, i, fmt.Sprintf("%s: %s, then Seek(%v) on the same iterator", who, how, k)) {
+					return
+				}
+				if i < n && i+1 < n {
+					it.Next()
+					if !x.iterAt(it, i+1, fmt.Sprintf("%s: %s, then Seek(%v).Next() on the same iterator", who, how, k)) {
+						return
+					}
 				}
 			}
 		}
